@@ -184,6 +184,8 @@ var nameList = []string{
 	"$(x)", "$x", "a$", "a;b", ";", "a;", "é", "aé", "éa", "\xff", "a\xff", "a\n", "\na", "a\nb", "a\n\n", "\n", "a\r", "a\r\n",
 	"a.b", "a/b", "a`b`", "`a`", "a\"", "'a'", "a\\", "a\x00", "\x00a", "a*", "a{b}", "a:b", "a,b", "a+b", "a@b", "a#", "a%b", "a&b", "a|b", "a<b", "a>b", "a(b)", "a[0]", "a~", "a!", "a?",
 	"A\nB=1", "a\n$(touch canary)", "a=$(touch canary)", "x;touch canary", "PATH=/x", "a b=c", "ａ", "a b", "a​b",
+	// letters that fold onto ASCII letters under Unicode case folding (KELVIN SIGN, LONG S, dotless / dotted i)
+	"\u212a", "MY_\u212aEY", "\u212aEY", "PA\u017f\u017fWORD", "\u017f", "a\u017f", "\u0131d", "\u0130D", "\u00b5", "\u00c5",
 }
 
 func runNamesList(c *sup.Child, b sup.Batch) {
